@@ -10,7 +10,7 @@ Open Scope Z_scope.
 Definition iValueError := 105.     (* ValueError from an rdata constructor check *)
 Definition iNotModelled := 997.    (* model artefact: wire codec of the generic-syntax branch *)
 
-Inductive enum_kind := KType | KScheme | KCtype | KAlgMn.
+Inductive enum_kind := KType | KScheme | KCtype | KAlgMn | KAlgNum.
 
 Inductive tfield :=
 | FDec (maxv : Z)                          (* get_uint8/16/32/48 *)
@@ -29,7 +29,9 @@ Inductive tfield :=
 | FBitmap                                  (* rest of line: type mnemonics, Bitmap.from_text *)
 | FB32                                     (* NSEC3 next hashed owner: base32hex, lower case, no padding *)
 | FEnum (k : enum_kind)                    (* get_string + a mnemonic-or-number conversion *)
-| FNsap.                                   (* NSAP: "0x" + hex, dots ignored on input *)
+| FNsap                                    (* NSAP: "0x" + hex, dots ignored on input *)
+| FIntC (maxv : Z)                         (* tok.get_int(); the range is checked by the constructor *)
+| FSigTime.                                (* RRSIG/SIG times: YYYYMMDDHHMMSS *)
 
 Inductive tval :=
 | VInt (z : Z)
@@ -529,7 +531,7 @@ Definition ctype_table : list (list Z * Z) :=
 Definition notify_name : list Z := [78; 79; 84; 73; 70; 89].
 
 Definition enum_max (k : enum_kind) : Z :=
-  match k with KType | KCtype => 65535 | KScheme | KAlgMn => 255 end.
+  match k with KType | KCtype => 65535 | KScheme | KAlgMn | KAlgNum => 255 end.
 
 (* to_text side *)
 Definition enum_print (k : enum_kind) (v : Z) : res (list Z) :=
@@ -538,6 +540,7 @@ Definition enum_print (k : enum_kind) (v : Z) : res (list Z) :=
   | KScheme => Ok (if v =? 1 then notify_name else dec v)       (* DSYNC Scheme.to_text *)
   | KCtype => Ok (match assoc_value v ctype_table with Some n => n | None => dec v end)   (* CERT _ctype_to_text *)
   | KAlgMn => Ok (match assoc_value v alg_table with Some n => n | None => dec v end)     (* Algorithm.to_text *)
+  | KAlgNum => Ok (dec v)                                       (* f"{self.algorithm}" *)
   end.
 
 (* from_text side, at token time *)
@@ -556,11 +559,64 @@ Definition enum_parse (k : enum_kind) (t : list Z) : res Z :=
       | None => match py_int 10 t with Some v => Ok v | None => Internal iValueError end
       end
   | KAlgMn => alg_from_text t
+  | KAlgNum => alg_from_text t
   end.
 
 (* constructor range check *)
 Definition enum_ctor (k : enum_kind) (v : Z) : res Z :=
   if (v <? 0) || (v >? enum_max k) then Internal iValueError else Ok v.
+
+(* ---------- RRSIG / SIG signature times (dns/rdtypes/rrsigbase.py) ---------- *)
+(* time.gmtime(t) + time.strftime("%Y%m%d%H%M%S"): proleptic Gregorian date of day number z
+   (days since 1970-01-01), the usual civil-from-days algorithm of the C library *)
+Definition civil_from_days (z : Z) : Z * Z * Z :=
+  let z := z + 719468 in
+  let era := z / 146097 in
+  let doe := z - era * 146097 in
+  let yoe := (doe - doe / 1460 + doe / 36524 - doe / 146096) / 365 in
+  let y := yoe + era * 400 in
+  let doy := doe - (365 * yoe + yoe / 4 - yoe / 100) in
+  let mp := (5 * doy + 2) / 153 in
+  let d := doy - (153 * mp + 2) / 5 + 1 in
+  let m := if mp <? 10 then mp + 3 else mp - 9 in
+  ((if m <=? 2 then y + 1 else y), m, d).
+
+(* zero-padded decimal of the given width (the value fits) *)
+Fixpoint pad_dec (width : nat) (n : Z) : list Z :=
+  match width with
+  | O => []
+  | S w => pad_dec w (n / 10) ++ [48 + n mod 10]
+  end.
+
+Definition posixtime_to_sigtime (t : Z) : list Z :=
+  let '(y, m, d) := civil_from_days (t / 86400) in
+  let r := t mod 86400 in
+  pad_dec 4 y ++ pad_dec 2 m ++ pad_dec 2 d ++ pad_dec 2 (r / 3600) ++ pad_dec 2 ((r mod 3600) / 60) ++ pad_dec 2 (r mod 60).
+
+(* datetime.date(year, month, 1).toordinal() *)
+Definition is_leap (y : Z) : bool := ((y mod 4 =? 0) && negb (y mod 100 =? 0)) || (y mod 400 =? 0).
+Definition days_before_year (year : Z) : Z := let y := year - 1 in y * 365 + y / 4 - y / 100 + y / 400.
+Definition days_before_month (year month : Z) : Z :=
+  nth (Z.to_nat month) [-1; 0; 31; 59; 90; 120; 151; 181; 212; 243; 273; 304; 334] 0
+  + (if (month >? 2) && is_leap year then 1 else 0).
+
+Definition sub_list (a b : nat) (s : list Z) : list Z := firstn (b - a) (skipn a s).
+
+(* sigtime_to_posixtime; BadSigTime is a DNSException outside the SyntaxError family, ValueError comes from
+   int() and datetime.date() *)
+Definition sigtime_to_posixtime (w : list Z) : res Z :=
+  if Nat.leb (length w) 10 && negb (is_nil w) && forallb is_decimal w then Ok (dec_value w 0)
+  else if negb (Nat.eqb (length w) 14) then Lib eUnknownRdatatype
+  else
+    match py_int 10 (sub_list 0 4 w), py_int 10 (sub_list 4 6 w), py_int 10 (sub_list 6 8 w),
+          py_int 10 (sub_list 8 10 w), py_int 10 (sub_list 10 12 w), py_int 10 (sub_list 12 14 w) with
+    | Some year, Some month, Some day, Some hour, Some minute, Some second =>
+        if (year <? 1) || (year >? 9999) || (month <? 1) || (month >? 12) then Internal iValueError
+        else
+          let days := days_before_year year + days_before_month year month + 1 - 719163 + day - 1 in
+          Ok (((days * 24 + hour) * 60 + minute) * 60 + second)
+    | _, _, _, _, _, _ => Internal iValueError
+    end.
 
 (* NSAP.from_text *)
 Definition nsap_from_text (t : list Z) : res (list Z) :=
@@ -593,6 +649,8 @@ Definition print_field (st : style) (f : tfield) (v : tval) : res (list Z) :=
   | FB32, VBytes b => Ok (b32hex_encode b)
   | FEnum k, VInt z => enum_print k z
   | FNsap, VBytes b => Ok ([48; 120] ++ hexlify b)
+  | FIntC _, VInt z => Ok (dec z)
+  | FSigTime, VInt z => Ok (posixtime_to_sigtime z)
   | _, _ => Internal eBadCase
   end.
 
@@ -651,6 +709,8 @@ Definition parse_field (c : pctx) (f : tfield) (st : tstate) : res (tval * tstat
   | FB32 => do ts <- get_string st 0; do b <- b32hex_decode (fst ts); Ok (VBytes b, snd ts)
   | FEnum k => do ts <- get_string st 0; do v <- enum_parse k (fst ts); Ok (VInt v, snd ts)
   | FNsap => do ts <- get_string st 0; do b <- nsap_from_text (fst ts); Ok (VBytes b, snd ts)
+  | FIntC _ => do vs <- get_int st 10; Ok (VInt (fst vs), snd vs)
+  | FSigTime => do ts <- get_string st 0; do v <- sigtime_to_posixtime (fst ts); Ok (VInt v, snd ts)
   | FBitmap =>
       do ts <- get_remaining st 0;
       do types <- map_res bitmap_token_type (fst ts);
@@ -678,6 +738,8 @@ Definition ctor_field (f : tfield) (v : tval) : res tval :=
   | FHexTok, VBytes b => if zlen b >? 255 then Internal iValueError else Ok v
   | FB32, VBytes b => if zlen b >? 255 then Internal iValueError else Ok v
   | FEnum k, VInt z => do z' <- enum_ctor k z; Ok (VInt z')
+  | FIntC maxv, VInt z => if (z <? 0) || (z >? maxv) then Internal iValueError else Ok v
+  | FSigTime, VInt z => if (z <? 0) || (z >? 4294967295) then Internal iValueError else Ok v
   | FAlg, VBytes t => do z <- alg_from_text t; Ok (VInt z)
   | FTag, VBytes b =>
       if (zlen b >? 255) || is_nil b || negb (forallb is_alnum b) then Internal iValueError else Ok v
@@ -723,6 +785,8 @@ Definition schema_of (rdtype : Z) : option (list tfield) :=
   else if rdtype =? 66 then Some [FEnum KType; FEnum KScheme; u16; FName]           (* DSYNC *)
   else if rdtype =? 37 then Some [FEnum KCtype; u16; FEnum KAlgMn; FB64Rest true]   (* CERT *)
   else if rdtype =? 22 then Some [FNsap]                                            (* NSAP *)
+  else if (rdtype =? 46) || (rdtype =? 24)                                          (* RRSIG SIG *)
+  then Some [FEnum KType; FEnum KAlgNum; FIntC 255; FTtl; FSigTime; FSigTime; FIntC 65535; FName; FB64Rest true]
   else if (rdtype =? 67) || (rdtype =? 68) then Some [FB64Rest false]               (* HHIT BRID *)
   else if (rdtype =? 2) || (rdtype =? 5) || (rdtype =? 12) || (rdtype =? 39) || (rdtype =? 23)
   then Some [FName]                                        (* NS CNAME PTR DNAME NSAP-PTR *)
@@ -781,6 +845,8 @@ Fixpoint vals_of_obs (fs : list tfield) (os : list obs) : option (list tval) :=
           | FB32, B b => Some (VBytes b :: r)
           | FNsap, B b => Some (VBytes b :: r)
           | FEnum _, I z => Some (VInt z :: r)
+          | FIntC _, I z => Some (VInt z :: r)
+          | FSigTime, I z => Some (VInt z :: r)
           | FAlg, I z => Some (VInt z :: r)
           | FBitmap, L l => match windows_of_obs l with Some w => Some (VWindows w :: r) | None => None end
           | FName, L l => match name_of_obs l with Some n => Some (VName n :: r) | None => None end
@@ -844,6 +910,9 @@ Definition run_addr (c : obs) : obs :=
       | Some w => L (map I (bitmap_types w))
       | None => E eBadCase
       end
+  | L [I 60; I t] => B (posixtime_to_sigtime t)
+  | L [I 61; t] =>
+      match text_of_obs t with Some s => TokM.obs_of_res I (sigtime_to_posixtime s) | None => E eBadCase end
   | L [I 58; B d] => B (b32hex_encode d)
   | L [I 59; t] =>
       match text_of_obs t with Some s => TokM.obs_of_res B (b32hex_decode s) | None => E eBadCase end
@@ -860,6 +929,6 @@ Definition run_addr (c : obs) : obs :=
 
 Definition run (c : obs) : obs :=
   match c with
-  | L (I op :: _) => if (50 <=? op) && (op <=? 59) then run_addr c else run_text c
+  | L (I op :: _) => if (50 <=? op) && (op <=? 69) then run_addr c else run_text c
   | _ => run_text c
   end.
